@@ -283,6 +283,67 @@ pub fn run_check(replay: Option<Value>) -> i32 {
     let n_ladders = outs.iter().flatten().filter(|o| o.tags.contains(&"ladder")).count();
     rep.absorb(outs.into_iter().flatten().collect());
 
+    // wherever xend falls: a quadrature with a growing third derivative (y = sin t^2), so that the
+    // controller rejects a proposed step every now and then — also the one shortened to land on xend
+    {
+        let chirp = Prob {
+            name: "chirp y'=2t cos(t^2)".into(),
+            n: 1,
+            f: std::sync::Arc::new(|t, _y, d| d[0] = 2.0 * t * (t * t).cos()),
+            jac: Some(std::sync::Arc::new(|_t, _y| vec![0.0])),
+            flow: Some(std::sync::Arc::new(|s0, y0, s1| vec![y0[0] + (s1 * s1).sin() - (s0 * s0).sin()])),
+            y0: vec![0.0],
+            linear_homogeneous: false,
+        };
+        let nx = if thorough { 400 } else { 100 };
+        let sweep: Vec<(usize, usize, usize)> = (0..M5.len()).flat_map(|mi| (0..nx).flat_map(move |k| (0..2usize).map(move |ti| (mi, k, ti)))).collect();
+        let outs = par_map(sweep.len(), |q| {
+            let (mi, k, ti) = sweep[q];
+            let key = format!("xend:{}.{}.{}", mi, k, ti);
+            if let Some(o) = &only {
+                if *o != key {
+                    return None;
+                }
+            }
+            let m = M5[mi];
+            let xend = 2.0 + 6.0 * k as f64 / nx as f64;
+            let tol = [1e-4, 1e-7][ti];
+            let mut c = Cfg::new(m, 0.0, xend, &chirp.y0);
+            c.rtol = Tol::S(tol);
+            c.atol = Tol::S(tol);
+            c.user_jac = true;
+            let r = run(&chirp, &c);
+            let mut out = CaseOut::default();
+            out.events = r.st.n_ode;
+            let desc = json!({"key": key, "method": mname(m), "problem": chirp.name, "xend": xend, "tol": tol, "outcome": r.outcome_name(), "naccpt": r.sol().map(|s| s.naccpt), "nrejct": r.sol().map(|s| s.nrejct)});
+            match r.sol() {
+                Some(s) if s.status == Status::Success => {
+                    let nacc = s.naccpt.max(1) as f64;
+                    for (t, y) in s.t.iter().zip(&s.y) {
+                        let e = (y[0] - (t * t).sin()).abs();
+                        let bound = K * nacc * (tol + tol * 1.0);
+                        if e > bound {
+                            out.violations.push(Violation::new(&key, "accuracy", format!("xend={}: sample at t={:e} is off by {:e}, bound K*naccpt*(atol+rtol) = {:e} (naccpt={}, nrejct={})", xend, t, e, bound, s.naccpt, s.nrejct), desc.clone()).with("method", mname(m)).with("mode", "xend-sweep"));
+                            break;
+                        }
+                    }
+                    out.validated += s.t.len() as u64;
+                    if s.nrejct > 0 {
+                        out.tag("xend-sweep-with-rejections");
+                    }
+                }
+                _ => out.violations.push(Violation::new(&key, "not-solved", format!("xend={}: run ended with {}", xend, r.outcome_name()), desc.clone()).with("method", mname(m)).with("mode", "xend-sweep")),
+            }
+            out.tag("xend-sweep");
+            let mut h = r.st.fp;
+            h.s(&key);
+            out.fp = Some(h.as_u128());
+            out.sample = Some(desc);
+            Some(out)
+        });
+        rep.absorb(outs.into_iter().flatten().collect());
+    }
+
     // RK4: fourth-order global convergence as the step is refined
     let rk4_jobs: Vec<(usize, Dir)> = (0..vars.len()).flat_map(|vi| DIRS.iter().map(move |d| (vi, *d))).collect();
     let outs = par_map(rk4_jobs.len(), |j| {
@@ -458,6 +519,7 @@ pub fn run_check(replay: Option<Value>) -> i32 {
     rep.require("ladder", 500);
     rep.require("rk4-convergence", 10);
     rep.require("rk4-convergence-t-eval", 10);
+    rep.require("xend-sweep-with-rejections", 50);
     rep.rule = "every (method, problem variant, direction, initial-state scale, tolerance mode incl. per-component rtol and per-component atol with differing atol/rtol ratios, time origin, t_eval) is run over the whole tolerance ladder; oracle: every component of every returned sample within K*kappa*max(1,naccpt)*(atol_i+rtol_i*Y(t)) of the closed form (K=50, kappa = conditioning from the closed-form flow, configurations with kappa>20 skipped and counted, rounding floor 64 eps scale sqrt(nfev)); tightening 100x never increases the worst error more than 5x (counted when the tightened run's error is at least one unit kappa*naccpt*tol, i.e. governed by the tolerance); RK4: observed global order >= 3.6; thorough: dissipative polynomial fields against an independent extrapolated RK4 reference; distinct = distinct ladders".into();
     rep.assumptions.push("|y| is read as the max norm for coupled systems; a run of the alphabet that ends without Success is a violation (not-solved; whole mode failing: mode-unsupported): these are smooth well-conditioned problems at tolerances inside the stated range, also with the time origin shifted to x0 = 50.2".into());
     rep.finish()
